@@ -36,6 +36,8 @@ int vp_cli_connect(const unsigned char* data, int n)
 }
 int vp_cli_recv(int h, unsigned char* out, int cap) { int n = C[h].out_n < cap ? C[h].out_n : cap; for (int i = 0; i < n; i++) out[i] = C[h].out[i]; return C[h].out_n; }
 void vp_cli_close(int h) { C[h].peer_closed = 1; }
+int vp_srv_accepted(int h) { return C[h].accepted; }
+void vp_cli_send(int h, const unsigned char* data, int n) { for (int k = 0; k < n && C[h].in_n < CCAP; k++) C[h].in[C[h].in_n++] = data[k]; }
 int vp_srv_closed_by_server(int h) { return C[h].accepted && !C[h].open; }
 
 int socket(int dom, int type, int proto) { (void)dom; (void)type; (void)proto; for (int i = 0; i < NL; i++) if (!L[i].used) { L[i].used = 1; L[i].listening = 0; L[i].open = 1; return LFD0 + i; } return -1; }
